@@ -12,17 +12,18 @@ import (
 
 // Obligation is one named proof obligation: facts[:NFacts] ∧ Guard ⊢ Goal.
 type Obligation struct {
-	Name   string   `json:"name"`
-	Kind   string   `json:"kind"`
-	Func   string   `json:"func"`
-	Pos    string   `json:"pos,omitempty"`
-	Desc   string   `json:"desc,omitempty"`
-	Tags   []string `json:"tags,omitempty"`
-	NFacts int      `json:"-"`
-	Guard  Term     `json:"-"`
-	Goal   Term     `json:"-"`
-	Smoke  bool     `json:"smoke,omitempty"`
-	unit   *Unit
+	Name    string   `json:"name"`
+	Kind    string   `json:"kind"`
+	Func    string   `json:"func"`
+	Pos     string   `json:"pos,omitempty"`
+	Desc    string   `json:"desc,omitempty"`
+	Tags    []string `json:"tags,omitempty"`
+	NFacts  int      `json:"-"`
+	Guard   Term     `json:"-"`
+	Goal    Term     `json:"-"`
+	Smoke   bool     `json:"smoke,omitempty"`
+	KeepTag string   `json:"-"` // "#<clause ordinal>" for invariant obligations
+	unit    *Unit
 
 	Status string  `json:"status"`
 	Solver string  `json:"solver,omitempty"`
@@ -33,29 +34,30 @@ type Obligation struct {
 
 // Unit is the verification of one function (or lemma): declarations, ordered facts, obligations.
 type Unit struct {
-	E      *Engine
-	D      *Decls
-	Name   string
-	Facts  []Term
-	Obls   []*Obligation
-	counts map[string]int
-	heap0  map[string]Term // initial heap constants
+	E        *Engine
+	D        *Decls
+	Name     string
+	Facts    []Term
+	Obls     []*Obligation
+	counts   map[string]int
+	heap0    map[string]Term // initial heap constants
 	heapSort map[string]string
 
-	Opaque   map[string]bool // opaque calls made
-	Trusted  map[string]bool // intrinsics / trusted contracts used
-	Inlined  map[string]bool
-	ByContract map[string]bool
-	Warnings []string
+	Opaque      map[string]bool // opaque calls made
+	Trusted     map[string]bool // intrinsics / trusted contracts used
+	Inlined     map[string]bool
+	ByContract  map[string]bool
+	Warnings    []string
 	specFnsUsed map[string]bool
 	LoopsNoDecr []string
-	Errors []string
-	alloc0 Term
+	Errors      []string
+	alloc0      Term
 	pureDefined map[string]bool
-	smokeOn bool
-	axioms []Term
-	entryEnv func() *Env
-	gens int
+	smokeOn     bool
+	axioms      []Term
+	factTags    map[int]string
+	entryEnv    func() *Env
+	gens        int
 }
 
 func NewUnit(e *Engine, name string) *Unit {
@@ -70,6 +72,20 @@ func (u *Unit) Fact(t Term) {
 	if t == "true" {
 		return
 	}
+	u.Facts = append(u.Facts, t)
+}
+
+// TaggedFact records a hypothesis together with its origin (an assumed loop-invariant clause), so
+// that a query can be retried with unrelated quantified invariant clauses left out (dropping
+// hypotheses is always sound).
+func (u *Unit) TaggedFact(t Term, tag string) {
+	if t == "true" {
+		return
+	}
+	if u.factTags == nil {
+		u.factTags = map[int]string{}
+	}
+	u.factTags[len(u.Facts)] = tag
 	u.Facts = append(u.Facts, t)
 }
 
@@ -96,7 +112,11 @@ func (u *Unit) Oblige(kind, detail, pos, desc string, guard, goal Term, tags []s
 	return o
 }
 
-func (u *Unit) Query(o *Obligation) string {
+func (u *Unit) Query(o *Obligation) string { return u.QueryVariant(o, 0) }
+
+// QueryVariant 0 = all hypotheses; 1 = quantified loop-invariant hypotheses are kept only if they
+// belong to the clause the obligation is about (its KeepTag).
+func (u *Unit) QueryVariant(o *Obligation, variant int) string {
 	var b strings.Builder
 	b.WriteString(Prelude)
 	b.WriteString(goPrelude)
@@ -107,7 +127,26 @@ func (u *Unit) Query(o *Obligation) string {
 	for _, a := range u.axiomTerms() {
 		b.WriteString("(assert " + a + ")\n")
 	}
-	for _, f := range u.Facts[:o.NFacts] {
+	for i, f := range u.Facts[:o.NFacts] {
+		if variant > 0 && o.KeepTag != "" {
+			if tag, ok := u.factTags[i]; ok && strings.Contains(f, "(forall ") {
+				loopPart := o.KeepTag[:strings.Index(o.KeepTag, "#")] // "inv:L2"
+				same := tag == o.KeepTag
+				sameLoop := strings.HasPrefix(tag, loopPart+"#")
+				keep := true
+				switch variant {
+				case 1: // only the clause itself
+					keep = same
+				case 2: // the clause itself and everything from other loops
+					keep = same || !sameLoop
+				case 3: // the whole loop, nothing from other loops
+					keep = sameLoop
+				}
+				if !keep {
+					continue
+				}
+			}
+		}
 		b.WriteString("(assert " + f + ")\n")
 	}
 	b.WriteString("(assert " + o.Guard + ")\n")
@@ -133,15 +172,15 @@ func (u *Unit) heapInit(name, sort string) Term {
 
 // State is the symbolic state at a program point.
 type State struct {
-	u      *Unit
-	guard  Term
-	heaps  map[string]Term
-	locals map[*ssa.Alloc]Term
-	alloc  Term
-	seen   map[ssa.Value]Term // ghost: keys already produced by a map range; position of a string range
-	dom0   map[ssa.Value]Term
-	probe    *bool // set when a heap is read (used to detect heap-dependent address expressions)
-	havocGen int // generation of whole-heap havocs: heaps first used later get a generation-specific constant
+	u        *Unit
+	guard    Term
+	heaps    map[string]Term
+	locals   map[*ssa.Alloc]Term
+	alloc    Term
+	seen     map[ssa.Value]Term // ghost: keys already produced by a map range; position of a string range
+	dom0     map[ssa.Value]Term
+	probe    map[string]bool // when non-nil: records the heaps read (used to detect loop-variant address expressions)
+	havocGen int             // generation of whole-heap havocs: heaps first used later get a generation-specific constant
 }
 
 func (s *State) clone() *State {
@@ -160,7 +199,7 @@ func (s *State) clone() *State {
 
 func (s *State) heap(name, sort string) Term {
 	if s.probe != nil {
-		*s.probe = true
+		s.probe[name] = true
 	}
 	if t, ok := s.heaps[name]; ok {
 		return t
